@@ -122,7 +122,7 @@ def Kept {α : Type} (uj uj' : UnitB α) : Prop :=
 theorem applyExtendList_effect {α : Type} [Arith α] (si : SIConf) (pr : Prec) (l : List (Nat × ExtendEntry α))
     (hnd : (l.map (·.1)).Nodup) (c c' : Core α) (hc : Ready c) (hid : ∀ ie, ie ∈ l → ie.1 < c.units.length)
     (h : applyExtendList si pr l c = .ok c') :
-    (∀ ie, ie ∈ l → ∀ u, c.units[ie.1]? = some u → ∃ u', c'.units[ie.1]? = some u' ∧
+    (∀ ie, ie ∈ l → ∀ u, c.units[ie.1]? = some u → ∃ u', c'.units[ie.1]? = some u' ∧ SameFlags u' u ∧
         u'.unit.aliases = optJoin u.unit.aliases ie.2.aliases pr ∧ (u.isExpanded = false → u' = u.edit pr ie.2)) ∧
     (∀ j, (∀ ie, ie ∈ l → ie.1 ≠ j) → ∀ uj, c.units[j]? = some uj → ∃ uj', c'.units[j]? = some uj' ∧ Kept uj uj') := by
   induction l generalizing c with
@@ -147,10 +147,10 @@ theorem applyExtendList_effect {α : Type} [Arith α] (si : SIConf) (pr : Prec) 
         rcases List.mem_cons.mp hx with rfl | hx
         · rw [hu0] at hu; cases hu
           obtain ⟨u', hu', ha, hf, he⟩ := ih2 x.1 hnotin _ hat
-          exact ⟨u', hu', by rw [ha]; rfl, fun hne => he hne⟩
+          exact ⟨u', hu', hf, by rw [ha]; rfl, fun hne => he hne⟩
         · obtain ⟨u1, hu1, a1, f1, e1⟩ := hframe.2 x.1 (hnotin x hx) u hu
-          obtain ⟨u', hu', ha, he⟩ := ih1 x hx u1 hu1
-          refine ⟨u', hu', by rw [ha, a1], ?_⟩
+          obtain ⟨u', hu', hf', ha, he⟩ := ih1 x hx u1 hu1
+          refine ⟨u', hu', ⟨hf'.1.trans f1.1, hf'.2.1.trans f1.2.1, hf'.2.2.trans f1.2.2⟩, by rw [ha, a1], ?_⟩
           intro hne
           have := e1 hne; subst this
           exact he hne
@@ -238,12 +238,41 @@ theorem applyExtendGroup_spec {α : Type} [Arith α] (si : SIConf) (c c' : Core 
     · intro ke hke
       obtain ⟨id, hid, hmem⟩ := r2 ke hke
       obtain ⟨_, u, hu, _⟩ := hc.1.sound _ _ hid
-      obtain ⟨u', hu', ha, hb⟩ := e1 (id, ke.2) hmem u hu
+      obtain ⟨u', hu', _, ha, hb⟩ := e1 (id, ke.2) hmem u hu
       refine ⟨id, u, u', hid, hu, hu', ha, fun hne => by rw [hb hne]; rfl, ?_⟩
       intro hx
       rcases r3 (id, ke.2) hmem with hin | ⟨x, _, hx2, _, hx4⟩
       · simp at hin
       · exact hx4 u hu hx
+    · intro j uj hj huj
+      apply e2 j _ uj huj
+      intro ie hie e
+      rcases r3 ie hie with hin | ⟨x, hx, _, hx3, _⟩
+      · simp at hin
+      · exact hj x hx (by rw [hx3, e])
+
+/-- the block spec with whole unit values (used for the uniqueness of the result) -/
+theorem applyExtendGroup_spec' {α : Type} [Arith α] (si : SIConf) (c c' : Core α) (g : Extend α) (hc : Ready c)
+    (h : applyExtendGroup si c g = .ok c') :
+    c'.units.length = c.units.length ∧
+    (∀ ke, ke ∈ g.units → ∃ id u u', idxGet c.index ke.1 = some id ∧ c.units[id]? = some u ∧ c'.units[id]? = some u' ∧
+        SameFlags u' u ∧ u'.unit.aliases = optJoin u.unit.aliases ke.2.aliases g.precedence ∧
+        (u.isExpanded = false → u' = u.edit g.precedence ke.2)) ∧
+    (∀ j uj, (∀ ke, ke ∈ g.units → idxGet c.index ke.1 ≠ some j) → c.units[j]? = some uj →
+        ∃ uj', c'.units[j]? = some uj' ∧ Kept uj uj') := by
+  unfold applyExtendGroup at h
+  split at h
+  · cases h
+  · rename_i upd hupd
+    obtain ⟨r1, r2, r3, _⟩ := resolveExtend_spec c g.units [] upd (by simp) hupd
+    have hvalid := (resolveExtend_good c hc.1 g.units [] (by simp)).of_ok hupd
+    obtain ⟨e1, e2⟩ := applyExtendList_effect si g.precedence upd r1 c c' hc hvalid h
+    refine ⟨((applyExtendList_good si g.precedence upd c hc hvalid).of_ok h).2, ?_, ?_⟩
+    · intro ke hke
+      obtain ⟨id, hid, hmem⟩ := r2 ke hke
+      obtain ⟨_, u, hu, _⟩ := hc.1.sound _ _ hid
+      obtain ⟨u', hu', hf, ha, hb⟩ := e1 (id, ke.2) hmem u hu
+      exact ⟨id, u, u', hid, hu, hu', hf, ha, hb⟩
     · intro j uj hj huj
       apply e2 j _ uj huj
       intro ie hie e
